@@ -187,8 +187,8 @@ func (x *Exec) zeroElems(st *State, base *Term, et types.Type) {
 	zs := x.flatten(et, x.zeroValue(et))
 	for i, c := range cs {
 		name := elemPrefix(et) + c.suffix
-		arr := x.heapArr(st, name, SInt, ArraySort(SBV64, c.sort))
-		st.heap[name] = x.nameTerm(st, Store(arr, base, x.constArray(c.sort, zs[i])), "h")
+		x.heapArr(st, name, SInt, ArraySort(SBV64, c.sort))
+		x.heapStoreFwd(st, name, base, x.constArray(c.sort, zs[i]))
 	}
 }
 
@@ -372,6 +372,8 @@ func (x *Exec) sliceOfByteArray(st *State, arr *Term, n int) *SliceV {
 	// the sequence of this slice is a function of the array value only
 	sq := x.seqOf(st, sl)
 	st.Assume(Eq(sq, x.D.Fun(fmt.Sprintf("seqofarr%d", n), SSeq, arr)))
+	// seqofarrN is injective: instance of its inverse
+	st.Assume(Eq(x.D.Fun(fmt.Sprintf("arrofseq%d", n), arr.Sort, sq), arr))
 	st.Assume(Eq(x.seqLen(sq), BVConstU(uint64(n), 64)))
 	return sl
 }
